@@ -88,9 +88,15 @@ CHECKS = {
    technique="validity of a message tree w.r.t. a FIX XML dictionary as a three-valued TLA+ operator (spec/SchemaValid.tla + spec/Lexical.tla) over a dictionary constant produced by an independent XML translator (harness/fixdict.py); TLC (spec/SchemaValidEval.tla) computes the verdict of canonical instances and every single-fault mutant and compares with the real FIXSchema.validate built from the XML and from permutations of its <components>",
    text="Per message type of tests/FIX44.xml and tests/TT-FIX44.xml: required-only, partly and fully populated instances (groups with 1-2 items, nested to full depth) and mutants at every position and nesting depth: drop each required field/group, unknown tag, tag of another message, out-of-type / out-of-enum value, field as group and group as field, swapped group members, dropped delimiter, foreign member in an item; acceptance iff valid, rejection only by FIXMessageError, same outcome for every component order.",
    design_ref="5/C15", note="Quick tier: the session messages + a seeded sample of message types incl. some with required groups; thorough: all 93 + 40. Required member of an otherwise absent optional component: unspecified. " + COMMON_NOTE),
+ "C20": dict(engine="Tester",
+   technique="behaviours of the TLA+ OrderLife model replayed on a real order object with every exchange report fabricated by the real FIXTester from the model's report, plus an argument grid at every reachable order state; TLC (spec/Tester.tla, spec/TesterEval.tla, spec/SchemaValid.tla) judges validity against the independently translated FIX44 dictionary, quantities, ExecID freshness, OrderID stability and processing without error, and compares the helper's own assertions with their transcription; clean session scripts run against the helper's simulated acceptor and a real acceptor endpoint, compared by TLC",
+   text="(a) every maximal behaviour of the bounded OrderLife instance and TLC -simulate behaviours give the reachable order states; at each the helper fabricates the report the model exchange would send and a seeded grid of (ExecType, OrdStatus, quantities, price, ClOrdID) combinations; cancel rejects and the msg_* session factories likewise. (b) all scripts of up to 3-4 atomic exchanges (application message either way, TestRequest, Heartbeat either way) after a Logon: initiator frames, deliveries, state and counters must be equal in both setups.",
+   design_ref="5/C20", note="The helper is used without its optional schema so that validity is decided by the TLA+ oracle. " + COMMON_NOTE),
 }
 
 ENGINES = [
+ dict(name="Tester", path="spec/Tester.tla spec/TesterEval.tla spec/OrderLife.tla spec/SchemaValid.tla harness/props/c20.py",
+      serves_properties=["C20"], kind_free_text="TLA+ order/exchange model driving the real test helper; TLA+ validity oracle; helper acceptor vs real acceptor comparison"),
  dict(name="SchemaValid", path="spec/SchemaValid.tla spec/SchemaValidEval.tla spec/Lexical.tla harness/fixdict.py harness/props/c15.py",
       serves_properties=["C15"], kind_free_text="TLA+ validity oracle over an independently translated dictionary, evaluated by TLC against the real validator"),
  dict(name="Lexical", path="spec/Lexical.tla spec/LexicalMC.tla spec/LexicalEval.tla harness/props/c19.py",
